@@ -111,7 +111,7 @@ def parse_errors(stderr):
     return recs
 
 
-def run_unit(name, template, vacuity=False, rlimit=60, extra_flags=(), use_cache=True, threads=8):
+def run_unit(name, template, vacuity=False, rlimit=200, extra_flags=(), use_cache=True, threads=8):
     """Returns a dict describing the run.  Raises Undecided for anything that is not a clean
     pass or a genuine failed obligation."""
     t0 = time.time()
